@@ -3,7 +3,7 @@
    equals the model Static/Connect.connect_one - in particular no table is touched before a rejection. *)
 From Coq Require Import ZArith List Bool Arith Lia.
 Import ListNotations.
-From MV Require Import Time.Spec Static.Groups Static.Connect Static.GenConn.
+From MV Require Import Time.Spec Static.Groups Static.GroupsP Static.Connect Static.ConnectP Static.GenConn.
 From MV Require Gen.ConnectOne.
 
 Lemma set_nth_len n v l : length (set_nth n v l) = length l.
@@ -32,4 +32,23 @@ Proof.
   all: destruct (connect_interval gt sg dg (shifted f) (if weak f then 1 else 0)%Z) as [delay|[| |]] eqn:ED; try reflexivity.
   all: destruct (plain_interval_exists _ _ _ _ _ _ ED) as [pl EP]; rewrite EP.
   all: destruct (use_cache f), (src_persistent f), (dst_trigger f); simpl; rewrite ?EH; reflexivity.
+Qed.
+
+(* the decision theorem stated of the regenerated connect_one itself: it raises ScenarioError exactly when the property says it
+   must, never fails in another way, and whatever it raises it raises before touching any table *)
+Definition gen_rejected_clean (r : gen_result) : bool :=
+  match r with GRejected _ [] | GWeakRoot [] => true | _ => false end.
+Lemma generated_rejection_exact gt : wfGb gt = true -> forall sg dg f, (sg < length gt)%nat -> (dg < length gt)%nat ->
+  gen_rejected_clean (MV.Gen.ConnectOne.connect_one gt sg dg f) = should_reject gt sg dg f /\
+  (forall e b, MV.Gen.ConnectOne.connect_one gt sg dg f <> GCrashed e b) /\
+  (forall ps b, MV.Gen.ConnectOne.connect_one gt sg dg f = GRejected ps b -> b = []) /\
+  (forall b, MV.Gen.ConnectOne.connect_one gt sg dg f = GWeakRoot b -> b = []).
+Proof.
+  intros Hwf sg dg f Hs Hd. rewrite tie_connect_one.
+  destruct (connect_one_decision gt Hwf sg dg f Hs Hd) as (Hdec & Hnc).
+  destruct (MV.Static.Connect.connect_one gt sg dg f) as [ps| |e|es]; cbn [embed gen_rejected_clean is_rejected] in *.
+  - repeat split; try exact Hdec; try discriminate. intros ps' b H. injection H as _ <-. reflexivity.
+  - repeat split; try exact Hdec; try discriminate. intros b H. injection H as <-. reflexivity.
+  - exfalso. apply (Hnc e). reflexivity.
+  - repeat split; try exact Hdec; discriminate.
 Qed.
